@@ -1277,6 +1277,18 @@ def wire_ids_derive_both(ctx, rule):
             pat = r"^jsonrpsee_types::params::_::<impl jsonrpsee_types::params::_::_serde::%s for jsonrpsee_types::params::%s<'a>>::%s$" % (re.escape(tr_), ty, "serialize" if tr_ == "Serialize" else "deserialize")
             derived = F.find(pat)
             hand = [p_ for p_ in F.bodies if re.search(r"^<jsonrpsee_types::params::%s<.*> as .*%s.*>::(serialize|deserialize)$" % (ty, tr_.split("<")[0]), p_)]
+            # ... and the derived impl is the plain one: no per-variant `serialize_with` / `deserialize_with` hook (a
+            # lenient number parser that rounds 1.5 to 1 makes a foreign id equal to a pending one)
+            for d_ in derived:
+                hooks = [p_ for p_ in F.bodies if ("__DeserializeWith" in p_ or "__SerializeWith" in p_) and d_.path in p_]
+                # for untagged enums serde calls the hook function directly: every call of the derived body is serde's
+                # own machinery or std, never a function of this crate
+                for x_ in F.nested(d_):
+                    for c_ in x_.calls:
+                        nm_ = c_.name() or ""
+                        if re.search(r"^<?jsonrpsee_\w+::", nm_) and "_serde::" not in nm_:
+                            hooks.append(nm_)
+                R.check(not hooks, rule, "%s:%s-no-with-hook" % (ty, tr_.split("<")[0]), "%s for %s has no serialize_with / deserialize_with hook" % (tr_.split("<")[0], ty), "%s for %s routes a variant through a `%s` function: ids are no longer read / written exactly as the other side writes / reads them (e.g. a float id is rounded onto the id of a different pending call)" % (tr_.split("<")[0], ty, "deserialize_with" if "De" in tr_ else "serialize_with"), "%s:%d" % (d_.file, d_.lo))
             R.check(bool(derived) and not hand, rule, "%s:%s-derived" % (ty, tr_.split("<")[0]), "%s for %s is the derived impl" % (tr_.split("<")[0], ty), "%s for %s is not the derived impl any more (%s): the serialiser and the deserialiser of the id no longer mirror each other, so an id can come back from the peer as a different key than the one that was stored" % (tr_.split("<")[0], ty, [short(h) for h in hand] or "no derived impl found"), None)
 
 
